@@ -5,6 +5,7 @@ import (
 	"encoding/hex"
 	"encoding/json"
 	"fmt"
+	"math"
 	"math/rand"
 	"os"
 	"path/filepath"
@@ -144,6 +145,34 @@ func (formatExec) Exec(line string) (obs, viol string) {
 			}
 		}
 		return sb.String(), ""
+	case "cmpx":
+		// cmpx <int64|int> <a> <b>: the default order on signed keys anywhere in the 64-bit range (in
+		// particular pairs more than 2^63 apart, whose difference does not fit an int64)
+		a, _ := strconv.ParseInt(t[2], 10, 64)
+		b, _ := strconv.ParseInt(t[3], 10, 64)
+		var ka, kb interface{} = a, b
+		if t[1] == "int" {
+			ka, kb = int(a), int(b)
+		}
+		c, err := mast.DefaultKeyCompare(json.Marshal)(ka, kb)
+		if err != nil {
+			return "err", "DefaultKeyCompare failed: " + err.Error()
+		}
+		sign, want := 0, 0
+		if c < 0 {
+			sign = -1
+		} else if c > 0 {
+			sign = 1
+		}
+		if a < b {
+			want = -1
+		} else if a > b {
+			want = 1
+		}
+		if sign != want {
+			viol = fmt.Sprintf("default order of %s keys: compare(%d, %d) has sign %d, the numeric order gives %d", t[1], a, b, sign, want)
+		}
+		return fmt.Sprint(sign), viol
 	case "cmp":
 		a, _ := strconv.ParseUint(t[2], 10, 64)
 		b, _ := strconv.ParseUint(t[3], 10, 64)
@@ -203,6 +232,11 @@ func (formatExec) ModelLine(line string) string {
 			return "crclayer " + t[2] + " " + hex.EncodeToString(js)
 		}
 		return fmt.Sprintf("layer %s %s %s", modelKind(t[1]), t[2], t[3])
+	case "cmpx":
+		// the order-preserving code of a signed key: flip the sign bit
+		a, _ := strconv.ParseInt(t[2], 10, 64)
+		b, _ := strconv.ParseInt(t[3], 10, 64)
+		return fmt.Sprintf("cmp %d %d", uint64(a)^(1<<63), uint64(b)^(1<<63))
 	case "cmp":
 		if marshaledOrder(t[1]) {
 			a, _ := strconv.ParseUint(t[2], 10, 64)
@@ -255,6 +289,17 @@ func genFormatCase(r *rand.Rand) Case {
 		m := n + uint64(r.Intn(5)) - 2
 		if _, ok := goKey(kind, m); ok && m < 1<<40 {
 			ops = append(ops, fmt.Sprintf("cmp %s %d %d", kind, n, m))
+		}
+		if kind == "int64" || kind == "int" {
+			ext := []int64{math.MinInt64, math.MinInt64 + 1, -6000000000000000000, -(1 << 62) - 1, -(1 << 62), -1, 0, 1, 1 << 62, (1 << 62) + 1, 6000000000000000000, math.MaxInt64 - 1, math.MaxInt64}
+			a, b := pick(r, ext), pick(r, ext)
+			if r.Intn(3) == 0 {
+				a = int64(r.Uint64())
+			}
+			if r.Intn(3) == 0 {
+				b = int64(r.Uint64())
+			}
+			ops = append(ops, fmt.Sprintf("cmpx %s %d %d", kind, a, b), fmt.Sprintf("cmpx %s %d %d", kind, b, a))
 		}
 		if modelKind(kind) == "u64" {
 			// partners anywhere in the unsigned range, in particular on both sides of 2^63
